@@ -6,7 +6,7 @@ from hypothesis import strategies as st
 from asyncfix import FMsg
 from asyncfix.message import FIXMessage, MessageDirection
 from vlib.hyp import run_given
-from vlib.reffix import ref_check_frame, ref_get, ref_parse
+from vlib.reffix import reassemble, ref_check_frame, ref_get, ref_parse
 from vlib.runner import derive_seed
 from vlib.sess import Bench
 
@@ -59,7 +59,7 @@ class Driver:
         """Registers new frames the endpoint wrote (first transmissions)."""
         w = self.b.link.writers[self.b.side].written
         out = []
-        for _, fr in w[self.pos:]:
+        for fr in reassemble([x for _, x in w[self.pos:]]):
             p = ref_parse(fr)
             out.append((fr, p))
             if ref_get(p, 43) == "Y" or ref_get(p, 35) == "4":
